@@ -150,7 +150,7 @@ func init() {
 			}
 			return mkRegexp(e, a[0])
 		}
-		// FindAllString(s, n). Contract: nil, or 1..2 matches, each an opaque string (a substring of s about which
+		// FindAllString(s, n). Contract: nil iff the pattern does not match s, else 1..2 matches, each an opaque string (a substring of s about which
 		// nothing else is known); a nil receiver panics like the real method does.
 		e.intr["(*regexp.Regexp).FindAllString"] = func(e *Engine, st *State, cc *ssa.CallCommon, a []Value) Value {
 			if isNilPtr(a[0]) {
@@ -169,8 +169,10 @@ func init() {
 				}
 				return SliceVal{Obj: st.alloc(arr), Len: n, Cap: n}
 			}
+			// there is a match exactly when the pattern matches the subject in the sense of MatchString
+			hit := e.regexMatchTerm(re.Data.(StringVal), a[1].(StringVal))
 			return ForkVal{
-				Conds: []*Term{Eq(k, ConstBV(0, 8)), Eq(k, ConstBV(1, 8)), Eq(k, ConstBV(2, 8))},
+				Conds: []*Term{Not(hit), And(hit, Eq(k, ConstBV(1, 8))), And(hit, Eq(k, ConstBV(2, 8)))},
 				Vals:  []Value{mk(0), mk(1), mk(2)},
 			}
 		}
